@@ -75,6 +75,29 @@ def mean_of(res):
     return (fresh_array("no_such_mean", 4, "real"), None, 1)
 
 
+_REPLAY_AVG = '''
+import numpy as np, dask
+from acryo import SubtomogramLoader, Molecules
+rng = np.random.default_rng(0)
+tomo = rng.normal(size=(40, 40, 40)).astype(np.float32)
+ok = True
+for n in (1, 2, 7):
+    pos = rng.uniform(12, 28, size=(n, 3))
+    ld = SubtomogramLoader(tomo, Molecules(pos), order=1, scale=1.0, output_shape=(6, 6, 6))
+    ref = np.mean(ld.asnumpy().astype(np.float64), axis=0)
+    # the stack is re-chunked with dask's "auto" rule, which depends on the stack size relative to dask's configured
+    # chunk size: both the default and a small chunk size (the situation of a stack larger than one chunk) are run
+    for cs in (None, "3KiB"):
+        with dask.config.set({} if cs is None else {"array.chunk-size": cs}):
+            avg = ld.average()
+        err = float(np.abs(avg - ref).max())
+        print("N =", n, "| dask chunk size", cs or "default", ": max |average - arithmetic mean| =", round(err, 6))
+        ok = ok and avg.shape == (6, 6, 6) and err < 1e-4
+print("clause holds natively (the average is the arithmetic mean of all sub-tomograms):", ok)
+print("CONFIRMED" if not ok else "NOT-CONFIRMED"); sys.exit(1 if not ok else 0)
+'''
+
+
 @contract("acryo.loader._base:LoaderBase.average", props=["C09"])
 class average:
     """the average is the arithmetic mean over axis 0 (all N sub-tomograms, each exactly once, divided by N) of the
@@ -83,6 +106,8 @@ class average:
     helpers = dict(mean_of=mean_of)
     imports = NATIVE_IMPORTS
     native_call = "args['self'].average(args['output_shape'])"
+    replay = staticmethod(lambda ob, meta, model: _REPLAY_AVG)
+    may_raise = {"SubvolumeOutOfBoundError": "True"}   # a molecule whose window misses the tomogram (C02's clause)
     native = {"mean_over_molecules": "np.allclose(result, np.mean(self.replace(output_shape=output_shape).asnumpy(), axis=0), atol=1e-4)",
               "stack_is_task_list": "True", "shape": "result.shape == tuple(output_shape)"}
     ensures = {
